@@ -78,9 +78,29 @@ func genName(r *hlib.Rand, kind int) string {
 	case 3: // boundary lengths
 		n := []int{99, 100, 101, 155, 156, 255, 256, 257}[r.Intn(8)]
 		return strings.Repeat("n", n)
+	case 5: // around the 4096 byte block size (tar: pax / gnu long name records)
+		return asciiOfLen(r, []int{1000, 4095, 4096, 4097, 8192}[r.Intn(5)])
 	default: // long unicode
 		return strings.Repeat("ж", r.Range(50, 130)) + ".txt"
 	}
+}
+
+// header string / extra field sizes around internal block sizes (255/256 one length byte, 4096 a read block, 65535 the
+// largest 16 bit length)
+var hdrSizes = []int{1, 255, 256, 4095, 4096, 4097, 8192, 65535}
+
+func asciiOfLen(r *hlib.Rand, n int) string {
+	b := make([]byte, n)
+	for i := range b {
+		b[i] = byte('a' + r.Intn(26))
+		if i%17 == 16 {
+			b[i] = '/'
+		}
+	}
+	if n > 0 {
+		b[n-1] = 'z'
+	}
+	return string(b)
 }
 
 // payload kinds: 0 empty, 1 tiny, 2 random, 3 aaaa, 4 text, 5 > 64 KiB random, 6 > 64 KiB compressible
@@ -232,6 +252,21 @@ func genGzipRaw(r *hlib.Rand, i int) *fcase {
 	return c
 }
 
+// genGzipLong: name AND comment present (FLG = 0x18, which the decoder's mis-ordered flag byte happens to read
+// right, so these files are checked strictly), one of them of a boundary size.
+func genGzipLong(r *hlib.Rand, i int) *fcase {
+	sz := hdrSizes[(i/2)%len(hdrSizes)]
+	m := gzMember{os: 3, level: []int{-1, 0, 9}[i%3], data: genPayload(r, []int{1, 2, 4}[i%3])}
+	if i%2 == 0 {
+		m.name, m.comment = asciiOfLen(r, sz), "c"
+	} else {
+		m.name, m.comment = "n.txt", strings.ReplaceAll(asciiOfLen(r, sz), "/", " ")
+	}
+	c := buildGzip([]gzMember{m})
+	c.class = fmt.Sprintf("gziplong.%d.%d", i%2, sz)
+	return c
+}
+
 var gzLevels = []int{gzip.NoCompression, 1, 2, 3, 4, 5, 6, 7, 8, 9, gzip.DefaultCompression, gzip.HuffmanOnly}
 
 func genGzip(r *hlib.Rand, i int) *fcase {
@@ -325,6 +360,9 @@ func genTar(r *hlib.Rand, i int) *fcase {
 			if format == tar.FormatUSTAR && nk == 1 {
 				nk = 0
 			}
+			if format != tar.FormatUSTAR && k == 0 && i%4 == 3 {
+				nk = 5
+			}
 			m := tarMember{hdr: tar.Header{Name: genName(r, nk), Mode: int64([]int{0o644, 0o755, 0o7777, 0}[r.Intn(4)]),
 				Uid: r.Intn(70000), Gid: r.Intn(2000), ModTime: time.Unix(int64(r.Intn(1<<31)), 0), Typeflag: tar.TypeReg}}
 			if r.Bool() {
@@ -372,6 +410,7 @@ type zipMember struct {
 	comment string
 	level   int
 	data    []byte
+	extra   []byte    // a well formed unknown extra field record (tag, size, data)
 	mod     time.Time // zero: no modification time given
 	mode    uint32    // 0: no unix mode given
 }
@@ -399,11 +438,15 @@ func buildZip(ms []zipMember, comment string) *fcase {
 	for _, m := range ms {
 		level := m.level
 		w.RegisterCompressor(zip.Deflate, func(out io.Writer) (io.WriteCloser, error) { return flate.NewWriter(out, level) })
-		fh := &zip.FileHeader{Name: m.name, Method: m.method, Comment: m.comment}
+		fh := &zip.FileHeader{Name: m.name, Method: m.method, Comment: m.comment, Extra: append([]byte{}, m.extra...)}
 		if m.mode != 0 {
 			fh.SetMode(fs.FileMode(m.mode))
 		}
-		fdate, ftime, xt, hl := 0, 0, "~", 30+len(m.name)
+		fdate, ftime, xt, hl := 0, 0, "~", 30+len(m.name)+len(m.extra)
+		xraw := "~"
+		if len(m.extra) >= 4 {
+			xraw = fmt.Sprintf("%d:%d", binary.LittleEndian.Uint16(m.extra), binary.LittleEndian.Uint16(m.extra[2:]))
+		}
 		guess := time.Date(1980, 0, 0, 0, 0, 0, 0, time.UTC) // what date/time words 0/0 denote
 		if !m.mod.IsZero() {
 			fdate, ftime = dosWords(m.mod)
@@ -452,7 +495,7 @@ func buildZip(ms []zipMember, comment string) *fcase {
 		}
 		c.truth = append(c.truth, "F", kv("name", hxs(m.name)), kv("method", m.method), kv("dd", dd), kv("fcomment", opt(m.comment)),
 			kv("off", off), kv("fdate", fdate), kv("ftime", ftime), kv("guess", guess.Unix()), kv("gdesc", hxs(guess.Format("2006-01-02T15:04:05"))),
-			kv("xt", xt), kv("ext", fh.ExternalAttrs), kv("utf8", fh.Flags>>11&1), "clen=?", kv("data", hx(m.data)))
+			kv("xt", xt), kv("xraw", xraw), kv("ext", fh.ExternalAttrs), kv("utf8", fh.Flags>>11&1), "clen=?", kv("data", hx(m.data)))
 		fhs = append(fhs, fh)
 		clenAt = append(clenAt, len(c.truth)-2)
 		// payload of a stored member without descriptor: covered by crc32_uncompressed, which fq never verifies
@@ -506,6 +549,21 @@ func genZip(r *hlib.Rand, i int) *fcase {
 		if r.Intn(3) == 0 {
 			m.mode = []uint32{0o644, 0o755, 0o400, 0o777}[r.Intn(4)]
 		}
+		// header string / extra sizes around block sizes: one member of every 4th archive
+		if k == 0 && i%4 == 3 {
+			sz := hdrSizes[(i/4)%len(hdrSizes)]
+			switch (i / 32) % 3 {
+			case 0:
+				m.name = asciiOfLen(r, sz)
+			case 1:
+				m.comment = strings.ReplaceAll(asciiOfLen(r, sz), "/", " ")
+			default:
+				if sz > 65535-13 { // the writer adds 9 bytes of extended timestamp to a streamed member
+					sz = 65535 - 13
+				}
+				m.extra = append([]byte{0x99, 0x99, byte(sz), byte(sz >> 8)}, r.Bytes(sz)...)
+			}
+		}
 		ms = append(ms, m)
 		yc := 0
 		if !m.mod.IsZero() {
@@ -516,6 +574,9 @@ func genZip(r *hlib.Rand, i int) *fcase {
 	comment := ""
 	if i%3 == 1 {
 		comment = "archive comment"
+	}
+	if i%12 == 7 { // up to the 106 bytes fq's 128 byte end-record search window allows
+		comment = strings.ReplaceAll(asciiOfLen(r, []int{1, 105, 106}[(i/12)%3]), "/", " ")
 	}
 	c := buildZip(ms, comment)
 	c.class = cls
@@ -680,6 +741,10 @@ func genPng(r *hlib.Rand, i int) *fcase {
 		default:
 			t.text = strings.Repeat("ab", r.Range(1, 40))
 		}
+		if i%9 == 8 { // the longest keyword the specification allows and a text around / beyond the block sizes
+			t.kw = strings.Repeat("K", 79)
+			t.text = strings.ReplaceAll(asciiOfLen(r, []int{4095, 4096, 4097, 65535, 100000}[(i/9)%5]), "/", " ")
+		}
 		texts = append(texts, t)
 	}
 	var phys []uint32
@@ -757,10 +822,22 @@ func genGif(r *hlib.Rand, i int) *fcase {
 		extra = append(extra, 0x2c, byte(x), 0, byte(y), 0, byte(w), 0, byte(h), 0, 0x00, byte(cs), 0x00)
 		jt = []string{"J", kv("x", x), kv("y", y), kv("w", w), kv("h", h), kv("cs", cs)}
 	}
+	cmt := "~"
+	if i%5 == 1 || i%5 == 3 { // a comment extension whose data spans several 255 byte sub-blocks
+		data := r.Bytes([]int{1, 255, 256, 510, 4096, 65535}[(i/5)%6])
+		extra = append(extra, 0x21, 0xfe)
+		for p := 0; p < len(data); p += 255 {
+			e := min(p+255, len(data))
+			extra = append(extra, byte(e-p))
+			extra = append(extra, data[p:e]...)
+		}
+		extra = append(extra, 0x00)
+		cmt = hx(data)
+	}
 	if len(extra) > 0 && file[len(file)-1] == 0x3b {
 		file = append(append(append([]byte{}, file[:len(file)-1]...), extra...), 0x3b)
 	}
-	c := &fcase{format: "gif", file: file, truth: []string{kv("w", sz[0]), kv("h", sz[1]), kv("ncol", ncol), kv("n", nframes), kv("xe", xe), kv("gct", gct), kv("lbits", lbits), kv("bg", g.BackgroundIndex), kv("loop", g.LoopCount)}}
+	c := &fcase{format: "gif", file: file, truth: []string{kv("w", sz[0]), kv("h", sz[1]), kv("ncol", ncol), kv("n", nframes), kv("xe", xe), kv("cmt", cmt), kv("gct", gct), kv("lbits", lbits), kv("bg", g.BackgroundIndex), kv("loop", g.LoopCount)}}
 	var palb []byte
 	for _, cl := range pal {
 		cr, cg, cb, _ := cl.RGBA()
